@@ -44,7 +44,8 @@ class Contract:
 
 
 class ClassDecl:
-    def __init__(self, short, key, fields=None, interned=False, abstract=False, nt=None):
+    def __init__(self, short, key, fields=None, interned=False, abstract=False, nt=None, opaque=False):
+        self.opaque = opaque
         self.short = short
         self.key = key
         self.fields = fields or {}
